@@ -220,7 +220,17 @@ type File struct {
 
 // Lookup resolves a name in the root directory.
 func (m *Mount) Lookup(name string) (fs.Node, error) {
-	return m.Root.Lookup(m.ctx, name)
+	node, err := m.Root.Lookup(m.ctx, name)
+	if err != nil {
+		return nil, err
+	}
+	// bazil's LOOKUP handler fills the entry's attributes with node.Attr(); an
+	// error there is the LOOKUP's error (e.g. ENOENT for a remembered, dropped database).
+	var a bfuse.Attr
+	if err := node.Attr(m.ctx, &a); err != nil {
+		return nil, err
+	}
+	return node, nil
 }
 
 // Open opens an existing file.
